@@ -76,6 +76,17 @@ M += [
  ("C04","pathfor-nil-pointer","helpers/paths/path_for.go",'	if !rv.IsValid() {\n		return "", errors.New("can not calculate path to nil")\n	}\n','	_ = errors.New\n'),
  ("C04","pathfor-nil-embedded","helpers/paths/path_for.go",'		f = fieldByName(rv, "ID")','		f = rv.FieldByName("ID")'),
 ]
+M += [
+ ("C04","unhashable-key-read","compiler.go",'		if !kv.Comparable() {\n			return nil, fmt.Errorf(','		if false {\n			return nil, fmt.Errorf('),
+ ("C04","unhashable-key-write","compiler.go",'		if !kv.Comparable() {\n			return fmt.Errorf(','		if false {\n			return fmt.Errorf('),
+ ("C04","nil-value-receiver-string","compiler.go",'		if !nilValueReceiver(t, "String") {','		if true {'),
+ ("C04","nil-value-receiver-html","compiler.go",'		if !nilValueReceiver(t, "HTML") {','		if t != nil {'),
+ ("C04","nil-value-receiver-anyptr","compiler.go",'	_, ok := rv.Type().Elem().MethodByName(m)\n	return ok','	_, ok := rv.Type().MethodByName(m)\n	return !ok'),
+]
+M += [
+ ("C11","nomethod-yields-receiver","compiler.go",'		if !rv.IsValid() {\n			return nil, fmt.Errorf("\'%s\' does not have a method named \'%s\' (%s.%s)", node.Callee.String(), mname, node.Callee.String(), mname)\n		}\n','		if !rv.IsValid() {\n			return rc.Interface(), nil\n		}\n'),
+ ("C05","nomethod-yields-receiver","compiler.go",'		if !rv.IsValid() {\n			return nil, fmt.Errorf("\'%s\' does not have a method named \'%s\' (%s.%s)", node.Callee.String(), mname, node.Callee.String(), mname)\n		}\n','		if !rv.IsValid() {\n			return rc.Interface(), nil\n		}\n'),
+]
 def main():
     only = sys.argv[1:] 
     for prop,name,f,old,new in M:
